@@ -271,6 +271,7 @@ func (ot *objectTree) AddContentWithValidator(ctx context.Context, content Signa
 		return
 	}
 	objChange.OrderId = lexId.Next(ot.tree.attached[ot.tree.lastIteratedHeadId].OrderId)
+	oldTree := ot.tree
 	if content.IsSnapshot {
 		objChange.SnapshotCounter = ot.tree.root.SnapshotCounter + 1
 		// clearing tree, because we already saved everything in the last snapshot
@@ -288,6 +289,8 @@ func (ot *objectTree) AddContentWithValidator(ctx context.Context, content Signa
 	if validator != nil {
 		err = validator(storageChange)
 		if err != nil {
+			// nothing was added yet: keep the tree we had (the snapshot path has replaced it above)
+			ot.tree = oldTree
 			return
 		}
 	}
@@ -298,6 +301,12 @@ func (ot *objectTree) AddContentWithValidator(ctx context.Context, content Signa
 	added := []StorageChange{storageChange}
 	err = ot.storage.AddAll(ctx, added, ot.Heads(), ot.tree.root.Id)
 	if err != nil {
+		// the change was not persisted: the in-memory tree must not keep it as a head,
+		// otherwise the next change would be built on (and stored with) a parent that is not in the storage
+		_, rebuildErr := ot.rebuildFromStorage(nil, nil, nil)
+		if rebuildErr != nil {
+			log.Error("failed to rebuild after adding content to storage", zap.Strings("heads", ot.Heads()), zap.Error(rebuildErr))
+		}
 		return
 	}
 
